@@ -108,6 +108,16 @@ theorem order_preserved (k k' : Nat) (ops : List Op) :
   have h := (oinv_init k k').run ops
   exact ⟨h.pre, h.full⟩
 
+/-- (asymmetric loss) When only A's side has gone down (`loseA`: its transport failed, its
+session and proxy stopped) while B has not noticed: whatever B's real actor still receives are
+exactly the next messages that were sent, in order — the frames already under way are neither
+reordered nor duplicated nor mixed with anything else. -/
+theorem frames_in_flight_survive_loss_of_sender_side (k k' : Nat) (ops : List Op) :
+    let n := (Net.init k k').run ops
+    n.linkUp = false → n.targetUp = true → n.recvd ++ n.fwd.contents.map (·.item) <+: n.sent := by
+  intro n hl ht
+  exact ((oinv_init k k').run ops).chain hl ht
+
 /-- (nothing lost) with both ends up and every queue drained, the real actor has received
 exactly what was sent. -/
 theorem delivered_at_rest (k k' : Nat) (ops : List Op) :
@@ -568,6 +578,11 @@ example :
     (Link.run ({} : Link.S Nat) (Link.readerEvents dec 16 [stream.take 9, stream.drop 9 |>.take 6, stream.drop 15])).recvd
       = [3, 2] := by decide
 
+/-- A's side goes down with two casts under way: B still receives them, in order; a later cast is refused -/
+example :
+    let n := (Net.init 1 0).run [.cast 1 10, .cast 1 11, .proxy, .proxy, .moveF 0, .loseA, .cast 1 12, .moveF 0, .moveF 1, .moveF 1]
+    n.recvd.map (·.payload) = [10, 11] ∧ n.sent.map (·.payload) = [10, 11] ∧ n.linkUp = false := by decide
+
 /-- two outstanding calls from two senders, replies arriving in the opposite order, one
 caller abandoning, through 3 forward and 2 backward stages -/
 def demo : Net :=
@@ -624,6 +639,7 @@ example :
 #print axioms C20.cleanup_only_closed
 #print axioms C20.order_preserved
 #print axioms C20.delivered_at_rest
+#print axioms C20.frames_in_flight_survive_loss_of_sender_side
 #print axioms C20.per_sender_order
 #print axioms C20.replies_not_cross_wired
 #print axioms C20.reply_at_most_once
